@@ -284,7 +284,9 @@ func (s *Spec) Step(ctx context.Context, st *State, pending interface{}, c *Cont
 		if err == nil {
 			bs = e.Bs
 		} else {
-			// Bind "actionError" to the error string.
+			// Bind "actionError" to the error string (in a
+			// copy: the given state must not be modified).
+			bs = bs.Copy()
 			bs.Extend("actionError", err.Error())
 			bs.Extend("error", err.Error())
 			if !s.ActionErrorBranches {
